@@ -350,6 +350,7 @@ func checkC02(c *mc.Ctx) {
 	c.Ev.AddScenario(mc.Scenario{Name: "single-unit-packetisation", SpaceSize: total, Executed: done, Exhaustive: done == total,
 		Bound: "11 unit kinds x pointer_field {0,1,7,50} x trailing stuffing {0,1,5,190} x {AF stuffing, 0xFF padding} x {flush by next unit, flush at EOF} x (greedy + every single chunk deviation c in 1..183 at every packet + pairs over {1,2,3,91,182,183})"})
 	c02PMTBeforePAT(c)
+	c02MultiSectionPAT(c)
 	c02Merges(c)
 	c.Ev.Require("early-psi-position-checked", "flush-at-eof", "one-byte-first-chunk", "multi-pid-merge", "eight-pids-eof-drain")
 }
@@ -507,4 +508,74 @@ func c02PMTBeforePAT(c *mc.Ctx) {
 		}
 	}
 	c.Ev.AddScenario(mc.Scenario{Name: "pmt-pid-seen-before-pat", SpaceSize: n, Executed: n, Exhaustive: true, Bound: "PMT packets (a whole unit / the first packet of a unit) before the PAT, then two PMTs of 1 and 3+ packets: each must be returned when its final packet has been read"})
+}
+
+// c02MultiSectionPAT: a PAT unit of several sections announces one PMT PID per section; the PMT on
+// every announced PID must be delivered (and returned when its final packet has been read).
+func c02MultiSectionPAT(c *mc.Ctx) {
+	var n int64
+	for nsec := 1; nsec <= 3; nsec++ {
+		for _, oneUnit := range []bool{true, false} { // all sections in one unit / one section per unit
+			var secs [][]byte
+			var exps []ExpData
+			for k := 0; k < nsec; k++ {
+				d := modelPAT(uint16(k+1), uint16(0x1000+k))
+				secs = append(secs, SecPAT(d, ref.SecHdr{CNI: true, SN: uint8(k), LSN: uint8(nsec - 1)}))
+				exps = append(exps, ExpData{Kind: "PAT", Table: d})
+			}
+			cc0 := uint8(2)
+			var ps []*ref.Pkt
+			exp := map[uint16][]ExpData{}
+			if oneUnit {
+				u := PSIUnit(0, 0, secs, exps)
+				ps = append(ps, Packetize(u, nil, &cc0, true)...)
+				exp[0] = u.Exp
+			} else {
+				for k := range secs {
+					u := PSIUnit(0, 0, [][]byte{secs[k]}, []ExpData{exps[k]})
+					ps = append(ps, Packetize(u, nil, &cc0, true)...)
+					exp[0] = append(exp[0], u.Exp...)
+				}
+			}
+			ends := map[uint16]int{}
+			for k := nsec - 1; k >= 0; k-- { // PMTs in reverse PID order
+				pid := uint16(0x1000 + k)
+				d := modelPMT(uint16(k+1), 0x100, 2+k*20)
+				u := PSIUnit(pid, 0, [][]byte{SecPMT(d, ref.SecHdr{CNI: true})}, []ExpData{{Kind: "PMT", Table: d}})
+				cc := uint8(k)
+				ps = append(ps, Packetize(u, nil, &cc, true)...)
+				exp[pid] = u.Exp
+				ends[pid] = len(ps) * 188
+			}
+			ps = append(ps, &ref.Pkt{PID: 0x1fff, HasPL: true, Payload: bytes.Repeat([]byte{0xff}, 184)})
+			b := EncodePkts(ps)
+			cr := &countingReader{r: bytes.NewReader(b)}
+			d := astits.NewDemuxer(context.Background(), cr, astits.DemuxerOptPacketSize(188))
+			out := &DmxOut{}
+			for out.Calls < 64 {
+				out.Calls++
+				x, err := d.NextData()
+				if err != nil {
+					out.EOF = errors.Is(err, astits.ErrNoMorePackets)
+					if !out.EOF {
+						out.Errs = append(out.Errs, err)
+						continue
+					}
+					break
+				}
+				out.Data = append(out.Data, x)
+				if e, ok := ends[x.PID]; ok && cr.n != e {
+					c.Rep.Report("psi-read-ahead:multi-section-pat", map[string]any{"kind": "stream", "bytes": mc.Hex(b), "message": fmt.Sprintf("PMT on PID %#x returned with the reader at offset %d; its final packet ends at %d", x.PID, cr.n, e)})
+				}
+			}
+			if sig, msg := CompareOutput(exp, out); sig != "" {
+				c.Rep.Report(sig+":multi-section-pat", map[string]any{"kind": "stream", "bytes": mc.Hex(b), "message": msg})
+			}
+			n++
+			if nsec > 1 && oneUnit {
+				c.Ev.Class("pmt-pid-announced-in-later-pat-section", 1)
+			}
+		}
+	}
+	c.Ev.AddScenario(mc.Scenario{Name: "multi-section-pat-announces-pmts", SpaceSize: n, Executed: n, Exhaustive: true, Bound: "PAT of 1..3 sections (one unit / one unit per section), one PMT PID per section, PMTs of 1..3 packets"})
 }
